@@ -855,7 +855,7 @@ func ruleSortFlag(c *Ctx, r *Rep, tier string) {
 	rule := "SORT-FLAG"
 	for _, f := range []struct {
 		pkg, flag string
-		conts   []string
+		conts     []string
 	}{{"internal", "IsSorted", []string{"Bins", "Intervals"}}, {"csi", "isSorted", []string{"bins"}}} {
 		fn := c.Func(f.pkg, "(*Index).Add")
 		isFlagClear := func(ins ssa.Instruction) bool {
